@@ -94,6 +94,15 @@ def generate(rng, tier):
             K = pyref.interleave(A); m1 = pyref.M1(b"BOB", salt, A, le32(10), K)
             cs.append(Case("srv.server %s %s %s %s %s | %s%s" % (enc("bob"), le32(1).hex(), salt.hex(), A.hex(), m1.hex(), le32(1).hex(), chal.hex()),
                            "server-S-low-zeros=%d-then-inner-zero" % zeros, "ok %s %s %s ~48" % (K.hex(), pyref.M2(A, m1, K).hex(), chal.hex())))
+    # a refused login hands out the server's own M1 next to the presented one: that value is a handshake value too
+    for _ in range(20 if tier == "quick" else 400):
+        us, ps = cred(rng), cred(rng)
+        salt, b, a, chal = rbytes(rng, 32), rbytes(rng, 32), rbytes(rng, 32), rbytes(rng, 16)
+        s = pyref.Session(us, ps, salt, b, a)
+        if s.A % N == 0 or s.B % N == 0: continue
+        bad = bytearray(s.M1); bad[rng.randrange(20)] ^= 1 << rng.randrange(8)
+        cs.append(Case("srv.server %s %s %s %s %s | %s%s" % (enc(us), le32(s.v).hex(), salt.hex(), s.A32.hex(), bytes(bad).hex(), b.hex(), chal.hex()),
+                       "server-M1-in-refusal", "err %s %s ~32" % (bytes(bad).hex(), s.M1.hex())))
     # server interleave classes (S = A through v = 1, b = 1)
     for zeros in range(32):
         A = bytes(zeros) + bytes([rng.randint(1, 127)]) + (rbytes(rng, 30 - zeros) + b"\x01" if zeros < 31 else b"")
